@@ -153,7 +153,7 @@ def classify(unit, hspec, hres, workdir):
         if st == "Unreachable":
             out["n_unreach"] += 1
             if label and label not in hspec.get("may_be_unreachable", []):
-                out["inconclusive"].append("property assertion %s is unreachable (vacuous harness)" % label)
+                out.setdefault("unreachable_labels", []).append(label)
             continue
         if st == "Failure":
             if any(re.search(p, desc + " @ " + locs) for p in ignore):
@@ -174,6 +174,11 @@ def classify(unit, hspec, hres, workdir):
             continue
         # Undetermined etc. (Kani marks everything undetermined once an unwinding assertion failed)
         out["n_other"] = out.get("n_other", 0) + 1
+    # an assertion that became unreachable because an earlier check (e.g. a panic in p2panda code)
+    # fails on every path is explained by that violation; otherwise the harness is vacuous
+    if not out["violations"]:
+        for l in out.get("unreachable_labels", []):
+            out["inconclusive"].append("property assertion %s is unreachable (vacuous harness)" % l)
     if out.get("n_other"):
         out["inconclusive"].append("%d checks undetermined (follows from a failed unwinding assertion or solver error)" % out["n_other"])
     for w in hspec.get("witnesses", None) or []:
@@ -188,7 +193,7 @@ def classify(unit, hspec, hres, workdir):
     elif hstatus != "Success" and not out["violations"] and not out["inconclusive"]:
         out["inconclusive"].append("harness status %s without a failing check" % hstatus)
     n_labelled = len(out["prop_asserts_ok"]) + len([v for v in out["violations"] if v.get("kind") != "panic"])
-    if checks and n_labelled == 0:
+    if checks and n_labelled == 0 and not out["violations"]:
         out["inconclusive"].append("no labelled property assertion was decided in this harness")
     if out["violations"]:
         out["status"] = "violation"
@@ -253,6 +258,11 @@ def native_replay(unit, workdir, crate_dir, harness, script_path, release=False)
         cmd += ["--features", f]
     cmd += ["verif_replay_entry", "--", "--nocapture", "--test-threads", "1"]
     env.update(unit.get("native_env", {}))
+    if unit.get("native_fakeclock"):
+        so = os.path.join(CACHE, "fakeclock.so")
+        if not os.path.exists(so):
+            subprocess.run(["cc", "-shared", "-fPIC", "-O1", "-o", so, os.path.join(VERIF, "models", "fakeclock.c"), "-ldl"], check=True)
+        env["LD_PRELOAD"] = so
     try:
         p = subprocess.run(cmd, cwd=crate_dir, env=env, stdout=subprocess.PIPE, stderr=subprocess.STDOUT,
                            timeout=1800, text=True)
@@ -334,10 +344,10 @@ def check(pid, tier, seed, replay_only=None):
                 r = results.get(h["name"])
                 rec = classify(unit, h, r, workdir)
                 st = stats.get(h["name"], {})
-                rec["solver_s"] = round(st.get("runtime_decision_procedure_s", 0.0), 3)
-                rec["symex_s"] = round(st.get("runtime_symex_s", 0.0), 3)
-                rec["vccs"] = st.get("vccs_generated", 0)
-                rec["vccs_remaining"] = st.get("vccs_remaining", 0)
+                rec["solver_s"] = round(st.get("runtime_decision_procedure_s") or 0.0, 3)
+                rec["symex_s"] = round(st.get("runtime_symex_s") or 0.0, 3)
+                rec["vccs"] = st.get("vccs_generated") or 0
+                rec["vccs_remaining"] = st.get("vccs_remaining") or 0
                 rec["wall_s"] = round((r or {}).get("duration_ms", 0) / 1000.0, 2)
                 rec["bounds"] = h.get("bounds", "")
                 rec["encodes"] = h.get("encodes", "")
